@@ -152,11 +152,32 @@ func addrsOf(es []wallet.Entry) []string {
 	return out
 }
 
+// curCoin is the coin type of the wallet of the case being run: it selects the text
+// form of addresses (Skycoin base58 / Bitcoin base58 with its version byte) and the
+// default bip44 coin number.
+var curCoin = wallet.CoinTypeSkycoin
+
+func addrText(pk cipher.PubKey) string {
+	if curCoin == wallet.CoinTypeBitcoin {
+		return cipher.BitcoinAddressFromPubKey(pk).String()
+	}
+	return cipher.AddressFromPubKey(pk).String()
+}
+
+func pickCoin(r *Rng) string {
+	curCoin = wallet.CoinTypeSkycoin
+	if r.Chance(45) {
+		curCoin = wallet.CoinTypeBitcoin
+		return "Bitcoin"
+	}
+	return "Skycoin"
+}
+
 // coherent: address == AddressFromPubKey(pub) and, where a secret key is held,
 // pub == PubKeyFromSecKey(sec).
 func coherent(es []wallet.Entry, wantSecret bool) bool {
 	for _, e := range es {
-		if cipher.AddressFromPubKey(e.Public).String() != e.Address.String() {
+		if addrText(e.Public) != e.Address.String() {
 			return false
 		}
 		if e.Secret.Null() {
@@ -190,7 +211,7 @@ func detChain(seed string) (seeds [][]byte, addrs []string, err error) {
 			return nil, nil, e
 		}
 		seeds = append(seeds, ns)
-		addrs = append(addrs, cipher.AddressFromPubKey(pk).String())
+		addrs = append(addrs, addrText(pk))
 		s = ns
 	}
 	return
@@ -200,6 +221,7 @@ func runDet(o *Out, r *Rng, n int, dir string, hist Hist, caseJSON map[string][]
 	var items []string
 	for c := 0; c < n; c++ {
 		seed := "seed-" + asciiWord(r, 16)
+		coinName := pickCoin(r)
 		seeds, table, err := detChain(seed)
 		if err != nil {
 			return err
@@ -236,7 +258,7 @@ func runDet(o *Out, r *Rng, n int, dir string, hist Hist, caseJSON map[string][]
 		}
 		fn := fmt.Sprintf("c17det%d.wlt", c)
 		var cur wallet.Wallet
-		opts = append(opts, wallet.OptionCryptoType(crypto.CryptoTypeSha256Xor))
+		opts = append(opts, wallet.OptionCryptoType(crypto.CryptoTypeSha256Xor), wallet.OptionCoinType(curCoin))
 		cur, err = deterministic.NewWallet(fn, "c17", seed, opts...)
 		if err != nil {
 			return err
@@ -362,7 +384,7 @@ func runDet(o *Out, r *Rng, n int, dir string, hist Hist, caseJSON map[string][]
 		if err != nil {
 			return err
 		}
-		fresh, err := deterministic.NewWallet("c17fresh.wlt", "c17", seed, wallet.OptionGenerateN(uint64(len(es))))
+		fresh, err := deterministic.NewWallet("c17fresh.wlt", "c17", seed, wallet.OptionGenerateN(uint64(len(es))), wallet.OptionCoinType(curCoin))
 		if err != nil {
 			return err
 		}
@@ -374,13 +396,13 @@ func runDet(o *Out, r *Rng, n int, dir string, hist Hist, caseJSON map[string][]
 		for i, a := range table {
 			tab[i] = ab(a)
 		}
-		items = append(items, Tuple(strList(tab), Tuple(fmt.Sprint(gn), fmt.Sprint(sn), actCoq(act0)), List(ops), List(obs),
+		items = append(items, Tuple(coinName, strList(tab), Tuple(fmt.Sprint(gn), fmt.Sprint(sn), actCoq(act0)), List(ops), List(obs),
 			strList(addrsOf(fes)), B(coherent(es, true) && fresh.LastSeed() == cur.LastSeed() && failsOK)))
 		caseJSON["det"] = append(caseJSON["det"], map[string]interface{}{
-			"seed": seed, "generateN": gn, "scanN": sn, "ops": strings.Join(ops, " "), "final_entries": len(es)})
+			"seed": seed, "coin": coinName, "generateN": gn, "scanN": sn, "ops": strings.Join(ops, " "), "final_entries": len(es)})
 		o.Count("det"+seed+strings.Join(ops, ""), true)
 	}
-	o.Def("cases_det", "list string * (nat * nat * (string -> bool)) * list (dop string) * list (nat * list string) * list string * bool", items)
+	o.Def("cases_det", "coin * list string * (nat * nat * (string -> bool)) * list (dop string) * list (nat * list string) * list string * bool", items)
 	return nil
 }
 
@@ -389,12 +411,12 @@ func runDet(o *Out, r *Rng, n int, dir string, hist Hist, caseJSON map[string][]
 // bip44Tables derives, with the cipher/bip44 primitives only, the addresses of
 // m/44'/coin'/acct'/chain/i for chain in {0,1}, i < tableLen, and the external
 // chain's extended public key.
-func bip44Tables(mnemonic, pass string, accounts int) (tables [][]string, xpubs []string, err error) {
+func bip44Tables(mnemonic, pass string, accounts int, coinNumber bip44.CoinType) (tables [][]string, xpubs []string, err error) {
 	seed, err := bip39.NewSeed(mnemonic, pass)
 	if err != nil {
 		return nil, nil, err
 	}
-	coin, err := bip44.NewCoin(seed, bip44.CoinTypeSkycoin)
+	coin, err := bip44.NewCoin(seed, coinNumber)
 	if err != nil {
 		return nil, nil, err
 	}
@@ -425,7 +447,7 @@ func bip44Tables(mnemonic, pass string, accounts int) (tables [][]string, xpubs 
 				if err != nil {
 					return nil, nil, err
 				}
-				t = append(t, cipher.AddressFromPubKey(pk).String())
+				t = append(t, addrText(pk))
 			}
 			tables = append(tables, t)
 		}
@@ -449,10 +471,26 @@ func runIdx(o *Out, r *Rng, n int, dir string, hist Hist, caseJSON map[string][]
 		if !isXpub && r.Chance(35) {
 			accounts = 2
 		}
-		tables, xpubs, err := bip44Tables(mn, pass, accounts)
+		coinName := pickCoin(r)
+		// bip44 coin number: the coin's default, or an explicit other one (kept in the
+		// meta and needed again by NewAccount after a reload)
+		coinNumber := bip44.CoinTypeSkycoin
+		if curCoin == wallet.CoinTypeBitcoin {
+			coinNumber = bip44.CoinTypeBitcoin
+		}
+		var wopts []wallet.Option
+		wopts = append(wopts, wallet.OptionCoinType(curCoin))
+		if r.Chance(30) {
+			coinNumber = bip44.CoinType([]uint32{1, 2, 145, 8000}[r.Intn(4)])
+			cn := coinNumber
+			wopts = append(wopts, wallet.OptionBip44Coin(&cn))
+		}
+		tables, xpubs, err := bip44Tables(mn, pass, 2, coinNumber)
 		if err != nil {
 			return err
 		}
+		allTables := tables
+		tables = tables[:2*accounts]
 		var cur wallet.Wallet
 		var initOps []string
 		nchains := 2 * accounts
@@ -461,12 +499,12 @@ func runIdx(o *Out, r *Rng, n int, dir string, hist Hist, caseJSON map[string][]
 			tables = tables[:1]
 			nchains = 1
 			g := r.Intn(4)
-			cur, err = xpubwallet.NewWallet(fn, "c17", xpubs[0], wallet.OptionGenerateN(uint64(g)))
+			cur, err = xpubwallet.NewWallet(fn, "c17", xpubs[0], wallet.OptionGenerateN(uint64(g)), wallet.OptionCoinType(curCoin))
 			initOps = append(initOps, fmt.Sprintf("(IGen 0 %d)", g))
 		} else {
 			g := 1 + r.Intn(3)
 			var bw *bip44wallet.Wallet
-			bw, err = bip44wallet.NewWallet(fn, "c17", mn, pass, wallet.OptionGenerateN(uint64(g)), wallet.OptionCryptoType(crypto.CryptoTypeSha256Xor))
+			bw, err = bip44wallet.NewWallet(fn, "c17", mn, pass, append(wopts, wallet.OptionGenerateN(uint64(g)), wallet.OptionCryptoType(crypto.CryptoTypeSha256Xor))...)
 			initOps = append(initOps, fmt.Sprintf("(IGen 0 %d)", g), "(IGen 1 1)")
 			if err == nil && accounts == 2 {
 				_, err = bw.NewAccount("second")
@@ -495,6 +533,7 @@ func runIdx(o *Out, r *Rng, n int, dir string, hist Hist, caseJSON map[string][]
 			}
 			return out, nil
 		}
+		nchains0 := nchains
 		var ops, obs, opNames []string
 		observe := func() error {
 			cs, err := chains(cur)
@@ -559,7 +598,21 @@ func runIdx(o *Out, r *Rng, n int, dir string, hist Hist, caseJSON map[string][]
 			if r.Chance(18) {
 				x = 11 + r.Intn(3)
 			}
+			if !isXpub && accounts == 1 && !locked && r.Chance(12) {
+				x = 14
+			}
 			switch {
+			case x == 14: // a second account (needs the seed and the bip44 coin number, possibly after a reload)
+				bw, isB := cur.(*bip44wallet.Wallet)
+				if !isB {
+					return fmt.Errorf("not a bip44 wallet")
+				}
+				if _, err := bw.NewAccount("second"); err != nil {
+					return err
+				}
+				accounts, nchains, tables = 2, 4, allTables
+				ops = append(ops, "INewAccount")
+				opNames = append(opNames, "NewAccount")
 			case x == 11: // scan with a finder that errors at its k-th call (one call per chain)
 				f := &failingFinder{set: finder{}, failAt: r.Intn(nchains)}
 				for j := 0; j < nchains; j++ {
@@ -690,7 +743,7 @@ func runIdx(o *Out, r *Rng, n int, dir string, hist Hist, caseJSON map[string][]
 		}
 		var single []string
 		if isXpub {
-			fresh, err := xpubwallet.NewWallet("c17fresh.wlt", "c17", xpubs[0], wallet.OptionGenerateN(uint64(len(final[0]))))
+			fresh, err := xpubwallet.NewWallet("c17fresh.wlt", "c17", xpubs[0], wallet.OptionGenerateN(uint64(len(final[0]))), wallet.OptionCoinType(curCoin))
 			if err != nil {
 				return err
 			}
@@ -702,7 +755,7 @@ func runIdx(o *Out, r *Rng, n int, dir string, hist Hist, caseJSON map[string][]
 			ok = ok && coherent(final[0], false)
 		} else {
 			g := len(final[0])
-			fresh, err := bip44wallet.NewWallet("c17fresh.wlt", "c17", mn, pass, wallet.OptionGenerateN(uint64(g)))
+			fresh, err := bip44wallet.NewWallet("c17fresh.wlt", "c17", mn, pass, append(wopts, wallet.OptionGenerateN(uint64(g)))...)
 			if err != nil {
 				return err
 			}
@@ -744,7 +797,7 @@ func runIdx(o *Out, r *Rng, n int, dir string, hist Hist, caseJSON map[string][]
 				ok = ok && coherent(c, true)
 			}
 			// watch-only wallet on the external chain key of account 0
-			xw, err := xpubwallet.NewWallet("c17x.wlt", "c17", xpubs[0], wallet.OptionGenerateN(uint64(len(final[0]))))
+			xw, err := xpubwallet.NewWallet("c17x.wlt", "c17", xpubs[0], wallet.OptionGenerateN(uint64(len(final[0]))), wallet.OptionCoinType(curCoin))
 			if err != nil {
 				return err
 			}
@@ -769,13 +822,13 @@ func runIdx(o *Out, r *Rng, n int, dir string, hist Hist, caseJSON map[string][]
 			}
 			tabs = append(tabs, strList(tt))
 		}
-		items = append(items, Tuple(List(tabs), fmt.Sprint(nchains), List(initOps), List(ops), List(obs), List(single), B(ok)))
+		items = append(items, Tuple(coinName, List(tabs), fmt.Sprint(nchains0), List(initOps), List(ops), List(obs), List(single), B(ok)))
 		caseJSON["idx"] = append(caseJSON["idx"], map[string]interface{}{
-			"type": map[bool]string{true: "xpub", false: "bip44"}[isXpub], "mnemonic": mn, "passphrase": pass, "accounts": accounts,
+			"type": map[bool]string{true: "xpub", false: "bip44"}[isXpub], "mnemonic": mn, "passphrase": pass, "accounts": accounts, "coin": coinName, "bip44_coin_number": uint32(coinNumber),
 			"init_ops": strings.Join(initOps, " "), "ops": strings.Join(ops, " ")})
 		o.Count("idx"+mn+strings.Join(ops, ""), true)
 	}
-	o.Def("cases_idx", "list (list string) * nat * list (iop string) * list (iop string) * list (list (list string)) * list (list string) * bool", items)
+	o.Def("cases_idx", "coin * list (list string) * nat * list (iop string) * list (iop string) * list (list (list string)) * list (list string) * bool", items)
 	return nil
 }
 
@@ -783,6 +836,7 @@ func runIdx(o *Out, r *Rng, n int, dir string, hist Hist, caseJSON map[string][]
 
 func runColl(o *Out, r *Rng, n int, dir string, caseJSON map[string][]map[string]interface{}) error {
 	var items []string
+	curCoin = wallet.CoinTypeSkycoin // collection wallets build Skycoin addresses only
 	for c := 0; c < n; c++ {
 		var keys []cipher.SecKey
 		var want []string
